@@ -109,6 +109,7 @@ def build_inputs(case, pres, pd, GeoEligibility):
   for g, row in enumerate(case['cells'], start=1):
     for d, v in enumerate(row, start=1):
       if v >= 0:
+        v *= case.get('sgn', 1)
         recs.append((ids[g - 1], dates[d], float(v) if pres['response_float'] else int(v)))
   rnd.shuffle(recs)
   col = pres['response_col']
@@ -270,7 +271,7 @@ def check_index(data, case, pres, mods):
     if have != want or not all(isinstance(x, (int, np.integer)) for x in have):
       bad.append(('IndexAssignments', 'geo_assignments.%s = %r, expected %r for order %r' % (name, sorted(have), sorted(want), order)))
       break
-  ncols = len(case['cols'])
+  ncols = len(seq(case['win']))
   for a in seq(case['aggs']):
     s = set(seq(a['s']))
     ts = np.asarray(data.aggregate_time_series(set(s)))
@@ -306,6 +307,9 @@ def replay_group(group):
     out.append((members[0][0], bad))
     out.extend((n, []) for n, _ in members[1:])   # same construction: reported once
     return out
+  if first.get('keep', 0) > 0:
+    # what a searcher does to the object before it fixes the geo index (tbrmatchedmarkets.py:69)
+    data.df = data.df.iloc[:, -first['keep']:]
   for n, case in members:
     if not case['has_order']:
       raise tlc.MachineryError('a finished case of an accepted construction has no order')
@@ -357,7 +361,7 @@ def counters():
           'missing_cells': 0, 'tied_means': 0, 'must_exclude_geo_in_data': 0, 'empty_order': 0,
           'full_order': 0, 'int_ids': 0, 'str_ids': 0, 'dates_as_timestamps': 0, 'dates_as_strings': 0,
           'class_c_fixed': 0, 'class_t_fixed': 0, 'class_ct': 0, 'class_cx': 0, 'class_ctx': 0, 'class_tx': 0,
-          'subsets_aggregated': 0}
+          'subsets_aggregated': 0, 'negative_responses': 0, 'restricted_to_recent_dates': 0}
 
 
 def classify(case, pres, cnt):
@@ -393,6 +397,10 @@ def classify(case, pres, cnt):
     cnt['missing_cells'] += 1
   if len(set(case['totals'])) < len(case['totals']):
     cnt['tied_means'] += 1
+  if case.get('sgn', 1) < 0:
+    cnt['negative_responses'] += 1
+  if case.get('keep', 0) > 0 and case['index_ok']:
+    cnt['restricted_to_recent_dates'] += 1
   cnt['int_ids' if case['dtype'] == 'int' else 'str_ids'] += 1
   cnt['dates_as_timestamps' if pres['date_mode'] == 'ts' else 'dates_as_strings'] += 1
 
@@ -480,7 +488,7 @@ def run(res):
           'table_subset_of_data', 'table_equal_to_data', 'no_table', 'missing_cells', 'tied_means',
           'must_exclude_geo_in_data', 'empty_order', 'full_order', 'int_ids', 'str_ids', 'dates_as_timestamps',
           'dates_as_strings', 'class_c_fixed', 'class_t_fixed', 'class_ct', 'class_cx', 'class_ctx', 'class_tx',
-          'subsets_aggregated']
+          'subsets_aggregated', 'negative_responses', 'restricted_to_recent_dates']
   empty = [k for k in need if cnt[k] == 0]
   if empty:
     raise tlc.MachineryError('vacuous run: no case of class(es) %s' % ', '.join(empty))
